@@ -50,3 +50,20 @@ def build(E, tier):
     cm.verify_public_fetch_many(E)
     cm.verify_set_many(E)
     cm.verify_public_admin(E)
+
+
+REPLAY_UNDECIDED = True
+
+
+def replay(ob, res):
+    """Bounded stand-in (undecided VCs, functions out of the verifier's reach, thorough exploration): operation histories on one
+    connection against a faithful in-memory memcached delivering its replies in pieces of 1 / 3 / 4096 bytes (contracts/c05.py)
+    and the store/fetch corpus of contracts/c04.py (pieces of 1, 2, 3, 7, 4096 bytes): a reply that is left unread, or read by
+    the wrong call, shows as a wrong result or an error in a later call."""
+    from . import c05, c04
+    import types
+    for m in (c05, c04):
+        r = m.replay(ob, types.SimpleNamespace(model={}))
+        if r.get("reproduced"):
+            return r
+    return {"reproduced": False, "searched": "C05 histories and C04 store/fetch corpus under several segmentations"}
